@@ -776,6 +776,9 @@ func secretFromProvider(c *Ctx, r *Report, rule, consequence string) {
 					if types.Identical(t, types.Universe.Lookup("error").Type()) {
 						continue
 					}
+					if readOnlyMapGlobal(fn.Pkg, g) {
+						continue // a table built once by the initialiser and only looked up: not state
+					}
 					bad = append(bad, fmt.Sprintf("%s reads %s (%s)", c.pos(in.Pos()), g.Name(), typeStr(t)))
 				}
 			})
@@ -961,4 +964,73 @@ func hopLimitAdmits(c *Ctx, r *Report, rule string, need int64) {
 	if n == 0 {
 		r.cerr(rule, "UnpackDomainName:hops", "no bounded hop counter found on a back edge of UnpackDomainName")
 	}
+}
+
+// readOnlyMapGlobal: a package-level map stored once, by the package initialiser, whose value is afterwards only used
+// in lookups, len and range, and whose address goes nowhere.
+func readOnlyMapGlobal(pkg *ssa.Package, g *ssa.Global) bool {
+	if _, isMap := g.Type().(*types.Pointer).Elem().Underlying().(*types.Map); !isMap {
+		return false
+	}
+	initFn := pkg.Func("init")
+	ok := true
+	stores := 0
+	readOnlyUse := func(v ssa.Value, inInit bool) {
+		if v.Referrers() == nil {
+			return
+		}
+		for _, ref := range *v.Referrers() {
+			switch r := ref.(type) {
+			case *ssa.Lookup, *ssa.DebugRef, *ssa.Range:
+			case *ssa.Call:
+				if calleeNameSSA(&r.Call) != "builtin.len" {
+					ok = false
+				}
+			case *ssa.MapUpdate:
+				if !inInit {
+					ok = false
+				}
+			case *ssa.Store:
+				if !inInit || r.Val != v || r.Addr != ssa.Value(g) {
+					ok = false
+				}
+			default:
+				ok = false
+			}
+		}
+	}
+	for _, m := range pkg.Members {
+		fn, isFn := m.(*ssa.Function)
+		if !isFn {
+			continue
+		}
+		for _, sub := range withAnon(fn) {
+			allInstrs(sub, func(in ssa.Instruction) {
+				for _, op := range in.Operands(nil) {
+					if *op != ssa.Value(g) {
+						continue
+					}
+					switch t := in.(type) {
+					case *ssa.Store:
+						if t.Addr != ssa.Value(g) || sub != initFn {
+							ok = false
+							continue
+						}
+						stores++
+						readOnlyUse(t.Val, true)
+					case *ssa.UnOp:
+						if t.Op != token.MUL {
+							ok = false
+							continue
+						}
+						readOnlyUse(t, false)
+					case *ssa.DebugRef:
+					default:
+						ok = false
+					}
+				}
+			})
+		}
+	}
+	return ok && stores == 1
 }
